@@ -37,6 +37,8 @@ REQUIRED = {
         'series-gentle-around-a-distant-datum': 500,
         'second-passes-compared': 200,
         'series-in-other-containers-compared': 200,
+        'series-with-more-than-1024-samples': 2,
+        'head-mappings-with-a-series-of-more-than-1024-samples': 2,
         'integer-typed-series': 200,
         'pairs-falling': 1000,
         'head-mappings-checked': 100,
@@ -51,9 +53,27 @@ MIN_NONTRIVIAL = {'quick': 1000, 'thorough': 10000}
 STEPS = [1.0, 0.5, 2.0, 0.1, 0.2, 0.3, 2.5, 5.0]
 
 
+def gen_long_series(rng):
+    """A record of more than a thousand samples (one long dry spell): a slow recession with
+    small reversals, a few tens to hundreds of level crossings"""
+    import numpy as np
+
+    m = rng.randint(1030, 2600)
+    dt = rng.choice([1800.0, 3600.0, 600.0])
+    x = rng.choice([0.0, 1.7e9]) + np.arange(m) * dt
+    step = rng.choice([1.0, 0.5, 2.5, 0.3])
+    y = [rng.uniform(-5, 5) * step]
+    drift = -step * rng.choice([0.02, 0.05, 0.1])
+    for _ in range(m - 1):
+        y.append(y[-1] + drift * rng.uniform(0.0, 2.0) + (step * 0.04 * rng.uniform(-1, 1) if rng.random() < 0.2 else 0.0))
+    return x, np.array(y, dtype=float), step, {'long'}
+
+
 def gen_series(rng):
     import numpy as np
 
+    if rng.random() < 0.004:
+        return gen_long_series(rng)
     m = rng.randint(2, 9)
     x0 = rng.choice([1.7e9, 0.0, 7.3, float(rng.randint(10 ** 9, 2 * 10 ** 9))])
     dx = rng.choice(['1800', '1200', 'irregular', 'third'])
@@ -208,6 +228,8 @@ def check_regrid_case(ctx, x, y, step, flags=(), source='generated'):
     rec.hit('crossings-tie-ambiguous', info['maybe'])
     rec.hit('crossings-reported', len(out))
     cls = classify_series(x, y, step, flags)
+    if len(x) > 1024:
+        rec.hit('series-with-more-than-1024-samples')
     for name, label in (('gentle', 'series-gentle-around-a-distant-datum'), ('on-level', 'series-with-sample-on-level'), ('ulp', 'series-with-one-ulp-beside-level'),
                         ('flat', 'series-with-flat-pair'), ('epoch', 'series-with-epoch-abscissae'),
                         ('nonmonotone', 'series-nonmonotone')):
@@ -237,6 +259,12 @@ def check_head_mapping_case(ctx, rng):
         x, y, st, _ = gen_series(rng)
         step = step or st
         series.append((x, y))
+    if rng.random() < 0.03:
+        x, y, st, _ = gen_long_series(rng)
+        if len(series) == 1 or rng.random() < 0.5:
+            step = st
+        series.insert(rng.randrange(len(series) + 1), (x, y))
+        rec.hit('head-mappings-with-a-series-of-more-than-1024-samples')
     if rng.random() < 0.4:
         # a second series with bit-identical ordinates on another clock (another sampling
         # step, another start): its crossings are at other abscissae
